@@ -235,9 +235,9 @@ pub fn core(seed: u64) -> Program {
         threads[t].insert(pos, Op::AddMiddleware { store: 0, tag: 150 });
     }
     // readers
-    let nread = g.rng.below(3) as usize;
+    let nread = g.rng.below(4) as usize;
     for _ in 0..nread {
-        let k = g.rng.range(1, 5);
+        let k = g.rng.range(2, 8);
         let mut ops = vec![];
         for _ in 0..k {
             ops.push(if g.rng.chance(80) { Op::GetState { store: 0 } } else { Op::GetMetrics { store: 0 } });
